@@ -6,7 +6,8 @@ Import ListNotations.
 Local Open Scope string_scope.
 
 (* loop_ctx: the checker's inside_loop flag at a position is true iff the position is inside the body of a
-   loop of the same function (nested function bodies start outside any loop). *)
+   loop of the same function (nested function bodies start outside any loop; so does the condition of a
+   loop, even of a nested one). *)
 Theorem C05_loop_ctx :
   (forall C ctx, inside_loop (ctx_at_e C ctx) = in_own_loop_e C (inside_loop ctx)) /\
   (forall C ctx, inside_loop (ctx_at_s C ctx) = in_own_loop_s C (inside_loop ctx)).
